@@ -47,6 +47,67 @@ def check(model: Model, rep: Report, tier: str):
         q8(model, rep)
     with rep.isolated():
         q10(model, rep)
+    with rep.isolated():
+        q11(model, rep)
+
+
+def q11(model: Model, rep: Report):
+    """Membership in a parity group is decided on the identifier OBJECTS (whose equality C19 pins down), over the group's own qubits and edges."""
+    rep.rule("C16.Q11", "ParityGroup.contains(element) == element is one of the group's data qubits, its ancilla, or one of its edges -- decided with `in` on the "
+                        "identifiers themselves (qubit equality = name equality, edge equality = unordered pair), never on derived strings such as `.id`, whose "
+                        "value for an edge depends on the order of its two qubits")
+    K = model.cls("ParityGroup")
+    f = K.resolve("contains")
+    if f is None:
+        raise AnalysisError("ParityGroup.contains vanished")
+    ev = Evaluator(model)
+    try:
+        v = bool_value(ev.eval_function(f, self_cls=K))
+    except Unsupported as e:
+        raise AnalysisError(f"ParityGroup.contains outside the supported fragment: {e}")
+    el = sym([p for p in f.param_names if p != f.self_name][0])
+    s = sym(f.self_name)
+    ats = atoms_of(v)
+    # the stored members: fields of the class, and the accessors over them
+    def source_fields(t) -> set:
+        out = set()
+        for y in subterms(t, lambda y: y[0] == "attr" and y[1] == s):
+            name = y[2]
+            g = K.resolve(name)
+            if g is not None and g.kind == "property":
+                try:
+                    gv = Evaluator(model, inline_methods=False).value_of(g, self_cls=K)
+                    out |= source_fields(gv) if gv is not None else {name}
+                except Unsupported:
+                    out.add(name)
+            else:
+                out.add(name)
+        return out
+    bad = [a for a in ats if not (a[0] == "in" and a[1] == el)]
+    flds = K.all_fields()
+    covered = set()
+    for a in ats:
+        if a[0] == "in" and a[1] == el:
+            covered |= source_fields(a[2])
+    want = {n for n, fi in flds.items() if fi.annotation is not None and ("IQubitID" in ast.unparse(fi.annotation) or "IEdgeID" in ast.unparse(fi.annotation))}
+    # the formula must be the plain disjunction of its membership atoms
+    from ..sym import t_or
+    disj = t_or(*[a for a in ats if a[0] == "in" and a[1] == el]) if ats else FALSE
+    same = False
+    if not bad and ats:
+        import itertools
+        same = True
+        for vals in itertools.product((TRUE, FALSE), repeat=len(ats)):
+            mp = dict(zip(ats, vals))
+            if subst(v, mp) != subst(disj, mp):
+                same = False
+                break
+    ok = not bad and same and want <= covered
+    why = (f"tests {show(bad[0])[:100]} instead of the element itself" if bad else "" if same else "is not the disjunction of its membership tests") or \
+          (f"does not look at {sorted(want - covered)}" if not want <= covered else "")
+    rep.check(ok, "C16.Q11", "ParityGroup.contains", f.loc, found=show(v)[:200], required="element in data qubits + [ancilla] or element in edges",
+              what="membership in a parity group " + why + ": an edge written with its two qubits in the other order (or an equal identifier built elsewhere) is not found, "
+                   "so get_parity_group / the exactly-once count of ancilla-data edges miss it", detail="membership")
 
 
 def q10(model: Model, rep: Report):
